@@ -116,6 +116,9 @@ func c18Eval(t *testing.T, run *h.Run, c c18Case, withPods bool) {
 			}
 		}
 		post := l.Capture(st)
+		if len(c.Settings) == 2 && len(c.Order) == 2 {
+			c18ReadFaults(t, run, c, st)
+		}
 		status := map[int]*v1.ExtendedDaemonsetSetting{}
 		for _, s := range post.Settings() {
 			var i int
@@ -329,4 +332,56 @@ func TestC18(t *testing.T) {
 	run.Sample(cases[len(cases)/2])
 	run.Assumptions = []string{"a selector with an operator outside In/NotIn/Exists/DoesNotExist is unusable and selects no node", "the CRD schema accepts any operator string (checked in config/crd)"}
 	exit(run.Finish(fmt.Sprintf("lattice: every population of 1..%d settings over 6 selector kinds x %d reference kinds (+ one setting of another namespace), equal or ordered creation times, 4-5 node populations, every order of reconciling each setting once (and twice around for pairs) through the real setting Reconcile, then one real R_ers to see which setting reaches the pods; non-trivial = distinct (selector, reference, alone/overlap, outcome)", maxSettings, len(refs))))
+}
+
+// c18ReadFaults: the same two reconciles with every single read of either of them rejected: whatever the outcome of the
+// faulted reconcile, two settings overlapping on a node must never both end up valid.
+func c18ReadFaults(t *testing.T, run *h.Run, c c18Case, st *w.State) {
+	overlap := false
+	for _, nl := range c.Nodes {
+		m0, u0 := c18Matches(c.Settings[0].Sel, nl)
+		m1, u1 := c18Matches(c.Settings[1].Sel, nl)
+		if m0 && m1 && u0 && u1 {
+			overlap = true
+		}
+	}
+	if !overlap {
+		return
+	}
+	for step := 0; step < 2; step++ {
+		for k := 0; k < 4; k++ { // a setting reconcile makes at most 3 reads (get, list settings, list nodes)
+			l := w.NewLive(st, w.Config{})
+			fired := false
+			for i, idx := range c.Order {
+				l.API.ResetLog()
+				l.API.FaultFn = nil
+				if i == step {
+					k := k
+					l.API.FaultFn = func(n int, call *w.Call) string {
+						if n == k && !call.IsWrite() {
+							fired = true
+							return w.FaultReject
+						}
+						return ""
+					}
+				}
+				l.ReconcileSetting("ns", fmt.Sprintf("set%d", idx+1))
+			}
+			if !fired {
+				continue
+			}
+			run.Count("read_fault_runs", 1)
+			post := l.Capture(st)
+			valid := 0
+			for _, s := range post.Settings() {
+				if s.Namespace == "ns" && s.Status.Status == v1.ExtendedDaemonsetSettingStatusValid {
+					valid++
+				}
+			}
+			if valid > 1 {
+				run.Violate(h.Violation{Signature: "C18/conflict: two settings whose selectors overlap on a node are both valid (after a rejected read in one of the reconciles)", Monitor: "C18/read-fault",
+					Message: fmt.Sprintf("fault at read %d of reconcile %d", k, step), Rank: int64(len(c.Nodes)), Replay: map[string]interface{}{"case": c, "faulted_reconcile": step, "read_index": k}})
+			}
+		}
+	}
 }
